@@ -18,13 +18,17 @@
        [Board::from_str] accepts a pawn on the first rank ([X01_accepted_not_valid]).
     4. Each [BoardBuilder] setter changes exactly the cell / field it names; [setup] keeps the
        last entry given for a square.
+    5. The oracle's perft equals the published node counts on the six standard test positions
+       (obtained through 1., never by evaluating the oracle).
     Proofs: [Proofs/PerftSpec.v], [Proofs/PerftExamples.v], [Proofs/PerftGame.v],
-    [Proofs/PerftBuilder.v]. *)
-From Coq Require Import NArith List Bool Permutation.
+    [Proofs/PerftBuilder.v], [Proofs/PerftPublished.v]. *)
+From Coq Require Import NArith List Bool Permutation String.
 From Chess Require Import Base.Bits Base.Text Spec.Geometry Spec.Rules Model.Board Model.MoveGen
   Model.Fen Model.Game Model.Perft.
 From Chess Require Import Proofs.NullMove Proofs.CorAReach Proofs.GameProtocol.
-From Chess Require Import Proofs.PerftSpec Proofs.PerftExamples Proofs.PerftGame Proofs.PerftBuilder.
+From Chess Require Import Proofs.ParseTotal.
+From Chess Require Import Proofs.PerftSpec Proofs.PerftExamples Proofs.PerftGame Proofs.PerftBuilder
+  Proofs.PerftPublished.
 Import ListNotations.
 Open Scope N_scope.
 
@@ -574,3 +578,314 @@ Check X01_bb_examples :
    bb_index (bb_setup pcs Black 0 0 (Some 3)) 4 = Some (Queen, White) /\
    last_at pcs 4 = Some (Queen, White) /\ last_at pcs 60 = Some (King, Black) /\ last_at pcs 5 = None).
 Print Assumptions X01_bb_examples.
+
+(** ** 5. The oracle against the published perft numbers (chessprogramming.org "Perft Results")
+    Each test position is the board [Board::from_str] returns for its FEN; it shows a valid
+    position and is canonical.  [X01_pub_*]: the model's perft, evaluated.  [X01_oracle_*]: the
+    FIDE-rules oracle [Spec.Rules.perft] on the position the board shows, obtained through
+    [X01_perft_canonical] — the oracle is never evaluated.  Proofs: [Proofs/PerftPublished.v]. *)
+
+Theorem X01_pub_start_parses : board_from_str Model.Extra.start_fen = Ok (from_scratch startpos).
+Proof. exact start_parses. Qed.
+Check X01_pub_start_parses : board_from_str Model.Extra.start_fen = Ok (from_scratch startpos).
+Print Assumptions X01_pub_start_parses.
+
+Theorem X01_pub_start_1 : movegen_perft (from_scratch startpos) 1 = Some 20.
+Proof. exact ex_perft_start_1. Qed.
+Check X01_pub_start_1 : movegen_perft (from_scratch startpos) 1 = Some 20.
+Print Assumptions X01_pub_start_1.
+
+Theorem X01_oracle_start_1 : perft 1 startpos = 20.
+Proof. exact oracle_start_1. Qed.
+Check X01_oracle_start_1 : perft 1 startpos = 20.
+Print Assumptions X01_oracle_start_1.
+
+Theorem X01_pub_start_2 : movegen_perft (from_scratch startpos) 2 = Some 400.
+Proof. exact ex_perft_start_2. Qed.
+Check X01_pub_start_2 : movegen_perft (from_scratch startpos) 2 = Some 400.
+Print Assumptions X01_pub_start_2.
+
+Theorem X01_oracle_start_2 : perft 2 startpos = 400.
+Proof. exact oracle_start_2. Qed.
+Check X01_oracle_start_2 : perft 2 startpos = 400.
+Print Assumptions X01_oracle_start_2.
+
+Theorem X01_pub_start_3 : movegen_perft (from_scratch startpos) 3 = Some 8902.
+Proof. exact ex_perft_start_3. Qed.
+Check X01_pub_start_3 : movegen_perft (from_scratch startpos) 3 = Some 8902.
+Print Assumptions X01_pub_start_3.
+
+Theorem X01_oracle_start_3 : perft 3 startpos = 8902.
+Proof. exact oracle_start_3. Qed.
+Check X01_oracle_start_3 : perft 3 startpos = 8902.
+Print Assumptions X01_oracle_start_3.
+
+Theorem X01_pub_start_4 : movegen_perft (from_scratch startpos) 4 = Some 197281.
+Proof. exact ex_perft_start_4. Qed.
+Check X01_pub_start_4 : movegen_perft (from_scratch startpos) 4 = Some 197281.
+Print Assumptions X01_pub_start_4.
+
+(** Kiwipete: [r3k2r/p1ppqpb1/bn2pnp1/3PN3/1p2P3/2N2Q1p/PPPBBPPP/R3K2R w KQkq - 0 1] *)
+Theorem X01_pub_kiwi_fen : kiwi_fen = s_of "r3k2r/p1ppqpb1/bn2pnp1/3PN3/1p2P3/2N2Q1p/PPPBBPPP/R3K2R w KQkq - 0 1"%string.
+Proof. exact eq_refl. Qed.
+Check X01_pub_kiwi_fen : kiwi_fen = s_of "r3k2r/p1ppqpb1/bn2pnp1/3PN3/1p2P3/2N2Q1p/PPPBBPPP/R3K2R w KQkq - 0 1"%string.
+Print Assumptions X01_pub_kiwi_fen.
+
+Theorem X01_pub_kiwi_parses : board_from_str kiwi_fen = Ok kiwi_board.
+Proof. exact kiwi_parses. Qed.
+Check X01_pub_kiwi_parses : board_from_str kiwi_fen = Ok kiwi_board.
+Print Assumptions X01_pub_kiwi_parses.
+
+Theorem X01_pub_kiwi_valid : pos_valid (abs_board kiwi_board) = true.
+Proof. exact kiwi_valid. Qed.
+Check X01_pub_kiwi_valid : pos_valid (abs_board kiwi_board) = true.
+Print Assumptions X01_pub_kiwi_valid.
+
+Theorem X01_pub_kiwi_canonical : Canonical kiwi_board.
+Proof. exact kiwi_canonical. Qed.
+Check X01_pub_kiwi_canonical : Canonical kiwi_board.
+Print Assumptions X01_pub_kiwi_canonical.
+
+Theorem X01_pub_kiwi_1 : movegen_perft kiwi_board 1 = Some 48.
+Proof. exact pub_kiwi_1. Qed.
+Check X01_pub_kiwi_1 : movegen_perft kiwi_board 1 = Some 48.
+Print Assumptions X01_pub_kiwi_1.
+
+Theorem X01_oracle_kiwi_1 : perft 1 (abs_board kiwi_board) = 48.
+Proof. exact oracle_kiwi_1. Qed.
+Check X01_oracle_kiwi_1 : perft 1 (abs_board kiwi_board) = 48.
+Print Assumptions X01_oracle_kiwi_1.
+
+Theorem X01_pub_kiwi_2 : movegen_perft kiwi_board 2 = Some 2039.
+Proof. exact pub_kiwi_2. Qed.
+Check X01_pub_kiwi_2 : movegen_perft kiwi_board 2 = Some 2039.
+Print Assumptions X01_pub_kiwi_2.
+
+Theorem X01_oracle_kiwi_2 : perft 2 (abs_board kiwi_board) = 2039.
+Proof. exact oracle_kiwi_2. Qed.
+Check X01_oracle_kiwi_2 : perft 2 (abs_board kiwi_board) = 2039.
+Print Assumptions X01_oracle_kiwi_2.
+
+Theorem X01_pub_kiwi_3 : movegen_perft kiwi_board 3 = Some 97862.
+Proof. exact pub_kiwi_3. Qed.
+Check X01_pub_kiwi_3 : movegen_perft kiwi_board 3 = Some 97862.
+Print Assumptions X01_pub_kiwi_3.
+
+Theorem X01_oracle_kiwi_3 : perft 3 (abs_board kiwi_board) = 97862.
+Proof. exact oracle_kiwi_3. Qed.
+Check X01_oracle_kiwi_3 : perft 3 (abs_board kiwi_board) = 97862.
+Print Assumptions X01_oracle_kiwi_3.
+
+(** position 3: [8/2p5/3p4/KP5r/1R3p1k/8/4P1P1/8 w - - 0 1] *)
+Theorem X01_pub_pos3_fen : pos3_fen = s_of "8/2p5/3p4/KP5r/1R3p1k/8/4P1P1/8 w - - 0 1"%string.
+Proof. exact eq_refl. Qed.
+Check X01_pub_pos3_fen : pos3_fen = s_of "8/2p5/3p4/KP5r/1R3p1k/8/4P1P1/8 w - - 0 1"%string.
+Print Assumptions X01_pub_pos3_fen.
+
+Theorem X01_pub_pos3_parses : board_from_str pos3_fen = Ok pos3_board.
+Proof. exact pos3_parses. Qed.
+Check X01_pub_pos3_parses : board_from_str pos3_fen = Ok pos3_board.
+Print Assumptions X01_pub_pos3_parses.
+
+Theorem X01_pub_pos3_valid : pos_valid (abs_board pos3_board) = true.
+Proof. exact pos3_valid. Qed.
+Check X01_pub_pos3_valid : pos_valid (abs_board pos3_board) = true.
+Print Assumptions X01_pub_pos3_valid.
+
+Theorem X01_pub_pos3_canonical : Canonical pos3_board.
+Proof. exact pos3_canonical. Qed.
+Check X01_pub_pos3_canonical : Canonical pos3_board.
+Print Assumptions X01_pub_pos3_canonical.
+
+Theorem X01_pub_pos3_1 : movegen_perft pos3_board 1 = Some 14.
+Proof. exact pub_pos3_1. Qed.
+Check X01_pub_pos3_1 : movegen_perft pos3_board 1 = Some 14.
+Print Assumptions X01_pub_pos3_1.
+
+Theorem X01_oracle_pos3_1 : perft 1 (abs_board pos3_board) = 14.
+Proof. exact oracle_pos3_1. Qed.
+Check X01_oracle_pos3_1 : perft 1 (abs_board pos3_board) = 14.
+Print Assumptions X01_oracle_pos3_1.
+
+Theorem X01_pub_pos3_2 : movegen_perft pos3_board 2 = Some 191.
+Proof. exact pub_pos3_2. Qed.
+Check X01_pub_pos3_2 : movegen_perft pos3_board 2 = Some 191.
+Print Assumptions X01_pub_pos3_2.
+
+Theorem X01_oracle_pos3_2 : perft 2 (abs_board pos3_board) = 191.
+Proof. exact oracle_pos3_2. Qed.
+Check X01_oracle_pos3_2 : perft 2 (abs_board pos3_board) = 191.
+Print Assumptions X01_oracle_pos3_2.
+
+Theorem X01_pub_pos3_3 : movegen_perft pos3_board 3 = Some 2812.
+Proof. exact pub_pos3_3. Qed.
+Check X01_pub_pos3_3 : movegen_perft pos3_board 3 = Some 2812.
+Print Assumptions X01_pub_pos3_3.
+
+Theorem X01_oracle_pos3_3 : perft 3 (abs_board pos3_board) = 2812.
+Proof. exact oracle_pos3_3. Qed.
+Check X01_oracle_pos3_3 : perft 3 (abs_board pos3_board) = 2812.
+Print Assumptions X01_oracle_pos3_3.
+
+Theorem X01_pub_pos3_4 : movegen_perft pos3_board 4 = Some 43238.
+Proof. exact pub_pos3_4. Qed.
+Check X01_pub_pos3_4 : movegen_perft pos3_board 4 = Some 43238.
+Print Assumptions X01_pub_pos3_4.
+
+Theorem X01_oracle_pos3_4 : perft 4 (abs_board pos3_board) = 43238.
+Proof. exact oracle_pos3_4. Qed.
+Check X01_oracle_pos3_4 : perft 4 (abs_board pos3_board) = 43238.
+Print Assumptions X01_oracle_pos3_4.
+
+(** position 4: [r3k2r/Pppp1ppp/1b3nbN/nP6/BBP1P3/q4N2/Pp1P2PP/R2Q1RK1 w kq - 0 1] *)
+Theorem X01_pub_pos4_fen : pos4_fen = s_of "r3k2r/Pppp1ppp/1b3nbN/nP6/BBP1P3/q4N2/Pp1P2PP/R2Q1RK1 w kq - 0 1"%string.
+Proof. exact eq_refl. Qed.
+Check X01_pub_pos4_fen : pos4_fen = s_of "r3k2r/Pppp1ppp/1b3nbN/nP6/BBP1P3/q4N2/Pp1P2PP/R2Q1RK1 w kq - 0 1"%string.
+Print Assumptions X01_pub_pos4_fen.
+
+Theorem X01_pub_pos4_parses : board_from_str pos4_fen = Ok pos4_board.
+Proof. exact pos4_parses. Qed.
+Check X01_pub_pos4_parses : board_from_str pos4_fen = Ok pos4_board.
+Print Assumptions X01_pub_pos4_parses.
+
+Theorem X01_pub_pos4_valid : pos_valid (abs_board pos4_board) = true.
+Proof. exact pos4_valid. Qed.
+Check X01_pub_pos4_valid : pos_valid (abs_board pos4_board) = true.
+Print Assumptions X01_pub_pos4_valid.
+
+Theorem X01_pub_pos4_canonical : Canonical pos4_board.
+Proof. exact pos4_canonical. Qed.
+Check X01_pub_pos4_canonical : Canonical pos4_board.
+Print Assumptions X01_pub_pos4_canonical.
+
+Theorem X01_pub_pos4_1 : movegen_perft pos4_board 1 = Some 6.
+Proof. exact pub_pos4_1. Qed.
+Check X01_pub_pos4_1 : movegen_perft pos4_board 1 = Some 6.
+Print Assumptions X01_pub_pos4_1.
+
+Theorem X01_oracle_pos4_1 : perft 1 (abs_board pos4_board) = 6.
+Proof. exact oracle_pos4_1. Qed.
+Check X01_oracle_pos4_1 : perft 1 (abs_board pos4_board) = 6.
+Print Assumptions X01_oracle_pos4_1.
+
+Theorem X01_pub_pos4_2 : movegen_perft pos4_board 2 = Some 264.
+Proof. exact pub_pos4_2. Qed.
+Check X01_pub_pos4_2 : movegen_perft pos4_board 2 = Some 264.
+Print Assumptions X01_pub_pos4_2.
+
+Theorem X01_oracle_pos4_2 : perft 2 (abs_board pos4_board) = 264.
+Proof. exact oracle_pos4_2. Qed.
+Check X01_oracle_pos4_2 : perft 2 (abs_board pos4_board) = 264.
+Print Assumptions X01_oracle_pos4_2.
+
+Theorem X01_pub_pos4_3 : movegen_perft pos4_board 3 = Some 9467.
+Proof. exact pub_pos4_3. Qed.
+Check X01_pub_pos4_3 : movegen_perft pos4_board 3 = Some 9467.
+Print Assumptions X01_pub_pos4_3.
+
+Theorem X01_oracle_pos4_3 : perft 3 (abs_board pos4_board) = 9467.
+Proof. exact oracle_pos4_3. Qed.
+Check X01_oracle_pos4_3 : perft 3 (abs_board pos4_board) = 9467.
+Print Assumptions X01_oracle_pos4_3.
+
+(** position 5: [rnbq1k1r/pp1Pbppp/2p5/8/2B5/8/PPP1NnPP/RNBQK2R w KQ - 1 8] *)
+Theorem X01_pub_pos5_fen : pos5_fen = s_of "rnbq1k1r/pp1Pbppp/2p5/8/2B5/8/PPP1NnPP/RNBQK2R w KQ - 1 8"%string.
+Proof. exact eq_refl. Qed.
+Check X01_pub_pos5_fen : pos5_fen = s_of "rnbq1k1r/pp1Pbppp/2p5/8/2B5/8/PPP1NnPP/RNBQK2R w KQ - 1 8"%string.
+Print Assumptions X01_pub_pos5_fen.
+
+Theorem X01_pub_pos5_parses : board_from_str pos5_fen = Ok pos5_board.
+Proof. exact pos5_parses. Qed.
+Check X01_pub_pos5_parses : board_from_str pos5_fen = Ok pos5_board.
+Print Assumptions X01_pub_pos5_parses.
+
+Theorem X01_pub_pos5_valid : pos_valid (abs_board pos5_board) = true.
+Proof. exact pos5_valid. Qed.
+Check X01_pub_pos5_valid : pos_valid (abs_board pos5_board) = true.
+Print Assumptions X01_pub_pos5_valid.
+
+Theorem X01_pub_pos5_canonical : Canonical pos5_board.
+Proof. exact pos5_canonical. Qed.
+Check X01_pub_pos5_canonical : Canonical pos5_board.
+Print Assumptions X01_pub_pos5_canonical.
+
+Theorem X01_pub_pos5_1 : movegen_perft pos5_board 1 = Some 44.
+Proof. exact pub_pos5_1. Qed.
+Check X01_pub_pos5_1 : movegen_perft pos5_board 1 = Some 44.
+Print Assumptions X01_pub_pos5_1.
+
+Theorem X01_oracle_pos5_1 : perft 1 (abs_board pos5_board) = 44.
+Proof. exact oracle_pos5_1. Qed.
+Check X01_oracle_pos5_1 : perft 1 (abs_board pos5_board) = 44.
+Print Assumptions X01_oracle_pos5_1.
+
+Theorem X01_pub_pos5_2 : movegen_perft pos5_board 2 = Some 1486.
+Proof. exact pub_pos5_2. Qed.
+Check X01_pub_pos5_2 : movegen_perft pos5_board 2 = Some 1486.
+Print Assumptions X01_pub_pos5_2.
+
+Theorem X01_oracle_pos5_2 : perft 2 (abs_board pos5_board) = 1486.
+Proof. exact oracle_pos5_2. Qed.
+Check X01_oracle_pos5_2 : perft 2 (abs_board pos5_board) = 1486.
+Print Assumptions X01_oracle_pos5_2.
+
+Theorem X01_pub_pos5_3 : movegen_perft pos5_board 3 = Some 62379.
+Proof. exact pub_pos5_3. Qed.
+Check X01_pub_pos5_3 : movegen_perft pos5_board 3 = Some 62379.
+Print Assumptions X01_pub_pos5_3.
+
+Theorem X01_oracle_pos5_3 : perft 3 (abs_board pos5_board) = 62379.
+Proof. exact oracle_pos5_3. Qed.
+Check X01_oracle_pos5_3 : perft 3 (abs_board pos5_board) = 62379.
+Print Assumptions X01_oracle_pos5_3.
+
+(** position 6: [r4rk1/1pp1qppp/p1np1n2/2b1p1B1/2B1P1b1/P1NP1N2/1PP1QPPP/R4RK1 w - - 0 10] *)
+Theorem X01_pub_pos6_fen : pos6_fen = s_of "r4rk1/1pp1qppp/p1np1n2/2b1p1B1/2B1P1b1/P1NP1N2/1PP1QPPP/R4RK1 w - - 0 10"%string.
+Proof. exact eq_refl. Qed.
+Check X01_pub_pos6_fen : pos6_fen = s_of "r4rk1/1pp1qppp/p1np1n2/2b1p1B1/2B1P1b1/P1NP1N2/1PP1QPPP/R4RK1 w - - 0 10"%string.
+Print Assumptions X01_pub_pos6_fen.
+
+Theorem X01_pub_pos6_parses : board_from_str pos6_fen = Ok pos6_board.
+Proof. exact pos6_parses. Qed.
+Check X01_pub_pos6_parses : board_from_str pos6_fen = Ok pos6_board.
+Print Assumptions X01_pub_pos6_parses.
+
+Theorem X01_pub_pos6_valid : pos_valid (abs_board pos6_board) = true.
+Proof. exact pos6_valid. Qed.
+Check X01_pub_pos6_valid : pos_valid (abs_board pos6_board) = true.
+Print Assumptions X01_pub_pos6_valid.
+
+Theorem X01_pub_pos6_canonical : Canonical pos6_board.
+Proof. exact pos6_canonical. Qed.
+Check X01_pub_pos6_canonical : Canonical pos6_board.
+Print Assumptions X01_pub_pos6_canonical.
+
+Theorem X01_pub_pos6_1 : movegen_perft pos6_board 1 = Some 46.
+Proof. exact pub_pos6_1. Qed.
+Check X01_pub_pos6_1 : movegen_perft pos6_board 1 = Some 46.
+Print Assumptions X01_pub_pos6_1.
+
+Theorem X01_oracle_pos6_1 : perft 1 (abs_board pos6_board) = 46.
+Proof. exact oracle_pos6_1. Qed.
+Check X01_oracle_pos6_1 : perft 1 (abs_board pos6_board) = 46.
+Print Assumptions X01_oracle_pos6_1.
+
+Theorem X01_pub_pos6_2 : movegen_perft pos6_board 2 = Some 2079.
+Proof. exact pub_pos6_2. Qed.
+Check X01_pub_pos6_2 : movegen_perft pos6_board 2 = Some 2079.
+Print Assumptions X01_pub_pos6_2.
+
+Theorem X01_oracle_pos6_2 : perft 2 (abs_board pos6_board) = 2079.
+Proof. exact oracle_pos6_2. Qed.
+Check X01_oracle_pos6_2 : perft 2 (abs_board pos6_board) = 2079.
+Print Assumptions X01_oracle_pos6_2.
+
+Theorem X01_pub_pos6_3 : movegen_perft pos6_board 3 = Some 89890.
+Proof. exact pub_pos6_3. Qed.
+Check X01_pub_pos6_3 : movegen_perft pos6_board 3 = Some 89890.
+Print Assumptions X01_pub_pos6_3.
+
+Theorem X01_oracle_pos6_3 : perft 3 (abs_board pos6_board) = 89890.
+Proof. exact oracle_pos6_3. Qed.
+Check X01_oracle_pos6_3 : perft 3 (abs_board pos6_board) = 89890.
+Print Assumptions X01_oracle_pos6_3.
